@@ -223,3 +223,33 @@ Proof.
   split; [vm_compute; reflexivity|].
   eexists. split; [vm_compute; reflexivity|]. split; vm_compute; reflexivity.
 Qed.
+
+(* CHAIN can fail only through: a bad DELETE range, MERGE into a protected program, a missing file or line,
+   an error while the COMMON strings are copied, or the memory check of preserve_commons.  Once that check has
+   passed, the restore loop (Scalars.set / Arrays.allocate for every COMMON variable) cannot fail in any way -
+   no Out of memory, no Duplicate Definition, no Subscript out of range, no host exception - and CHAIN completes.
+   wf and bufs_ok (every array has dimensions and a buffer of the size they determine) are invariants of
+   Arrays.allocate; the harness checks them on every real pre-state. *)
+Theorem C23_chain_succeeds : forall a s gs ga sv sz, wf s -> bufs_ok s ->
+  c_delete a && c_to_line_missing a = false -> c_merge a && c_protected a = false ->
+  c_file_missing a = false -> (match c_jumpnum a with Some _ => c_jump_missing a | None => false end) = false ->
+  gather (deftype s) 0 (c_decls a) [] = Ok gs -> gather (deftype s) 1 (c_decls a) [] = Ok ga ->
+  same_set gs (c_cs_order a) && nodupb (c_cs_order a) && (same_set ga (c_ca_order a) && nodupb (c_ca_order a)) = true ->
+  let kb := c_all a || (nonempty (c_cs_order a) || nonempty (c_ca_order a)) in
+  let cs' := if c_all a then map fst (sc_vars s) else c_cs_order a in
+  let ca' := if c_all a then map fst (ar_dims s) else c_ca_order a in
+  let s1 := RecordSet.set m_allow_collect (fun _ => false) s in
+  let s4 := RecordSet.set run_mode (fun _ => true) (chain_loaded a kb s1) in
+  migrate_commons cs' ca' s1 = Ok sv -> sizes_of sv s4 = Ok sz ->
+  var_start s4 + sz < st_cur (sv_store sv) ->
+  exists s', cmd_chain a s = Done s'.
+Proof. exact chain_succeeds. Qed.
+Print Assumptions C23_chain_succeeds.
+
+From PCB Require Import lib.Harness.
+Example C23_succeeds_nonvacuous : bufs_ok ex_state.
+Proof.
+  intros n d b Hd Hb. cbn in Hd, Hb. destruct (list_Z_eqb n [78; 37]) eqn:E; [|discriminate].
+  injection Hd as <-. injection Hb as <-. apply list_Z_eqb_eq in E. subst n.
+  split; [discriminate|]. intros bb Hbb. injection Hbb as <-. vm_compute. reflexivity.
+Qed.
